@@ -7,12 +7,12 @@ export GOFLAGS=-mod=mod GOPROXY=off GOSUMDB=off GOTOOLCHAIN=local
 PROP=$1; PATCH=$(readlink -f $2); DEMO=$(readlink -f $3); PKG=$4; RUN=$5; TIER=${6:-quick}
 W=/var/tmp/seedeval.$$.$PROP
 O=/var/tmp/seedeval.$$.$PROP.out
-git -C /repo worktree add -q --detach $W HEAD || exit 2
+git -C /repo worktree add -q --detach $W ${BASE:-HEAD} || exit 2
 trap 'git -C /repo worktree remove --force $W >/dev/null 2>&1; rm -rf $O' EXIT
 mkdir -p $O
 cp $DEMO $W/$PKG/zz_demo_test.go
 ( cd $W && go test -vet=off -count=1 -run "$RUN" ./$PKG >$O/demo_clean.txt 2>&1 ); echo "demo on clean tree: rc=$? (want 0)"
-( cd $W && git apply $PATCH ) || { echo "patch does not apply"; exit 2; }
+( cd $W && git apply $PATCH 2>/dev/null || git apply --3way $PATCH ) || { echo "patch does not apply"; exit 2; }
 ( cd $W && go build ./... >$O/build.txt 2>&1 ); echo "build with patch: rc=$? (want 0)"
 rm $W/$PKG/zz_demo_test.go
 ( cd $W && go test -vet=off -count=1 ./... >$O/suite.txt 2>&1 ); echo "suite with patch: rc=$? (want 0)"
